@@ -24,6 +24,7 @@ var fragMore = []string{
 	"<p id=a id=b>", "<i id=\"q\" onclick=x>", "<i id='q'>", "<i id>", "<b \"=\"x\">", "<b a<b=c>", "<b =x>",
 	"<my-y>", "</my-y>", "<a href=\"javascript:x\">", "<img src=\"http://e.x/i\" alt=\"&lt;b&gt;\">",
 	"<d\u0130v id=q>", "</d\u0130v>", "<mar\u212a title=t>", "<\u0130 id=q>", "<stri\u212ae>",
+	"<b data-k=\"a&amp;b&lt;\" id=q>",
 	"<input src=x>", "<frameset>", "</frameset>", "<span title=\"a&quot;b\" data-k=\"v\">", "</span>",
 }
 
